@@ -1,2 +1,177 @@
+//! `threads` (C15): several threads started on a barrier share instances and construct their own.
+//! Run in a fresh process so that the very first AES use races on the CPU-feature cache.
+
 use super::*;
-pub fn run(_cx: &mut Ctx, _args: &Args, _rng: &mut Rng) -> i32 { 2 }
+use std::sync::{Arc, Barrier};
+
+struct Shared(Box<dyn Inst>);
+// Sharing is only done when the concrete type is Sync (checked through the `marker` event, which the
+// trace specification requires to be true); the wrapper exists so that the driver compiles regardless.
+unsafe impl Sync for Shared {}
+unsafe impl Send for Shared {}
+
+pub fn run(cx: &mut Ctx, args: &Args, rng: &mut Rng) -> i32 {
+    let nthreads = args.num("threads", 4) as usize;
+    let iters = args.num("iters", 6) as usize;
+    let sel = cx.select(args);
+    cx.reset("threads");
+    // compile-time facts
+    for &ti in &sel {
+        let t = &cx.types[ti];
+        let v = json!({"ev":"marker","type":t.name,"send":(t.send)(),"sync":(t.sync)()});
+        cx.emit(v);
+    }
+    // choose keys/blocks up front (no construction yet: the first construction happens in the threads)
+    struct Plan {
+        ti: usize,
+        key: Vec<u8>,
+        blocks: Vec<Vec<u8>>,
+    }
+    let plans: Vec<Plan> = sel
+        .iter()
+        .map(|&ti| {
+            let t = &cx.types[ti];
+            let lens = key_lens(t, false);
+            let len = lens[rng.below(lens.len())];
+            Plan { ti, key: rng.bytes(len), blocks: (0..3).map(|_| rng.bytes(t.bs)).collect() }
+        })
+        .collect();
+    let plans = Arc::new(plans);
+    let barrier = Arc::new(Barrier::new(nthreads));
+    // ids: thread th uses ids th*100000 + n
+    let out = cx.out;
+    let cfg = cx.cfg.clone();
+    let (tx, rx) = std::sync::mpsc::channel::<(usize, Shared)>();
+    let rx = Arc::new(std::sync::Mutex::new(rx));
+    let results: Vec<Vec<Value>> = std::thread::scope(|scope| {
+        let mut handles = Vec::new();
+        for th in 0..nthreads {
+            let plans = plans.clone();
+            let barrier = barrier.clone();
+            let cfg = cfg.clone();
+            let tx = tx.clone();
+            let rx = rx.clone();
+            let seed = rng.next();
+            handles.push(scope.spawn(move || {
+                let mut r = Rng::new(seed);
+                let mut lcx = Ctx { out, next_id: (th as u64 + 1) * 100_000, run: 0, cfg, types: types::all_types(), buf: Some(Vec::new()) };
+                barrier.wait();
+                for it in 0..iters {
+                    for p in plans.iter() {
+                        // per-thread construction (races on detection the first time)
+                        let Some((id, inst)) = lcx.construct(p.ti, "slice", &p.key, "thread") else { continue };
+                        for b in &p.blocks {
+                            if let Some(c) = lcx.one(id, inst.as_ref(), Dir::Enc, Shape::ALL[r.below(3)], b) {
+                                lcx.one(id, inst.as_ref(), Dir::Dec, Shape::ALL[r.below(3)], &c);
+                            }
+                            lcx.one(id, inst.as_ref(), Dir::Dec, Shape::B2b, b);
+                        }
+                        let par = inst.par_e().or(inst.par_d()).unwrap_or(1);
+                        let n = par + 1;
+                        let data: Vec<u8> = (0..n).flat_map(|j| p.blocks[j % p.blocks.len()].clone()).collect();
+                        lcx.many(id, inst.as_ref(), Dir::Enc, Shape::B2b, &data, 0, 0, None);
+                        lcx.many(id, inst.as_ref(), Dir::Dec, Shape::B2b, &data, 0, 0, None);
+                        // hand the instance over to whichever thread picks it up (Send), use a received one
+                        if it % 2 == 0 {
+                            let _ = tx.send((p.ti, Shared(inst)));
+                            lcx.emit(json!({"ev":"send","id":id}));
+                        } else {
+                            lcx.drop_inst(id, inst);
+                        }
+                        let got = rx.lock().unwrap().try_recv().ok();
+                        if let Some((pti, sh)) = got {
+                            // the received instance has an id unknown to this thread: log under a fresh id as
+                            // a `recv` of the same type/key (the plan fixes the key per type)
+                            let pp = plans.iter().find(|q| q.ti == pti).unwrap();
+                            let rid = lcx.fresh_id();
+                            lcx.emit(json!({"ev":"new","id":rid,"type":lcx.types[pti].name,"via":"recv","key":pp.key,"x":types::sbox_of(lcx.types[pti].name).unwrap_or_default(),"out":"ok","kc":"recv"}));
+                            for b in &pp.blocks {
+                                lcx.one(rid, sh.0.as_ref(), Dir::Enc, Shape::B2b, b);
+                                lcx.one(rid, sh.0.as_ref(), Dir::Dec, Shape::B2b, b);
+                            }
+                            lcx.drop_inst(rid, sh.0);
+                        }
+                    }
+                }
+                lcx.buf.take().unwrap()
+            }));
+        }
+        drop(tx);
+        handles.into_iter().map(|h| h.join().unwrap_or_default()).collect()
+    });
+    for (th, evs) in results.into_iter().enumerate() {
+        for mut e in evs {
+            e["th"] = json!(th);
+            cx.emit(e);
+        }
+    }
+    // leftovers in the channel are dropped here
+    while let Ok((_, sh)) = rx.lock().unwrap().try_recv() {
+        drop(sh);
+    }
+    // phase 2: shared `&cipher` used by all threads at once
+    let mut shared: Vec<(usize, u64, Shared)> = Vec::new();
+    for p in plans.iter() {
+        if !(cx.types[p.ti].sync)() {
+            continue;
+        }
+        if let Some((id, inst)) = cx.construct(p.ti, "slice", &p.key, "shared") {
+            shared.push((p.ti, id, Shared(inst)));
+        }
+    }
+    let shared = Arc::new(shared);
+    let barrier = Arc::new(Barrier::new(nthreads));
+    let results: Vec<Vec<Value>> = std::thread::scope(|scope| {
+        let mut hs = Vec::new();
+        for th in 0..nthreads {
+            let shared = shared.clone();
+            let plans = plans.clone();
+            let barrier = barrier.clone();
+            let cfg = cx.cfg.clone();
+            let seed = rng.next();
+            hs.push(scope.spawn(move || {
+                let mut r = Rng::new(seed);
+                let mut lcx = Ctx { out, next_id: (th as u64 + 1) * 100_000 + 50_000, run: 0, cfg, types: types::all_types(), buf: Some(Vec::new()) };
+                barrier.wait();
+                for _ in 0..iters {
+                    for (pti, id, sh) in shared.iter() {
+                        let pp = plans.iter().find(|q| q.ti == *pti).unwrap();
+                        let b = if r.below(2) == 0 { pp.blocks[r.below(pp.blocks.len())].clone() } else { r.bytes(sh.0.bs()) };
+                        if let Some(c) = lcx.one(*id, sh.0.as_ref(), Dir::Enc, Shape::ALL[r.below(3)], &b) {
+                            lcx.one(*id, sh.0.as_ref(), Dir::Dec, Shape::B2b, &c);
+                        }
+                        lcx.one(*id, sh.0.as_ref(), Dir::Dec, Shape::B2b, &b);
+                        let par = sh.0.par_e().or(sh.0.par_d()).unwrap_or(1);
+                        let data: Vec<u8> = (0..par + 2).flat_map(|j| pp.blocks[j % pp.blocks.len()].clone()).collect();
+                        lcx.many(*id, sh.0.as_ref(), Dir::Enc, Shape::B2b, &data, r.below(16), r.below(16), None);
+                    }
+                }
+                lcx.buf.take().unwrap()
+            }));
+        }
+        hs.into_iter().map(|h| h.join().unwrap_or_default()).collect()
+    });
+    for (th, evs) in results.into_iter().enumerate() {
+        for mut e in evs {
+            e["th"] = json!(th);
+            cx.emit(e);
+        }
+    }
+    // single-block observation of every lane input used above, on fresh instances (obligations)
+    for p in plans.iter() {
+        if let Some((id, inst)) = cx.construct(p.ti, "slice", &p.key, "fresh") {
+            for b in &p.blocks {
+                cx.one(id, inst.as_ref(), Dir::Enc, Shape::B2b, b);
+                cx.one(id, inst.as_ref(), Dir::Dec, Shape::B2b, b);
+            }
+            cx.drop_inst(id, inst);
+        }
+    }
+    if let Ok(sh) = Arc::try_unwrap(shared) {
+        for (_, id, s) in sh {
+            cx.drop_inst(id, s.0);
+        }
+    }
+    cx.end();
+    0
+}
